@@ -481,37 +481,42 @@ func (rn *raNode) apply(idx uint64, overlap uint64, what string) error {
 	if err != nil {
 		return fmt.Errorf("the raft storage of the node cannot hand out the committed entries %d..%d: %v", lo, idx, err)
 	}
-	sentinel := false
 	if what == "marker" {
-		// make the completion of reset() observable: reset() clears prevBlock under jobLock as its first effect
-		rn.bf.jobLock.Lock()
-		if rn.bf.prevBlock == nil {
-			rn.bf.prevBlock = raSentinel
-			sentinel = true
-		}
-		rn.bf.jobLock.Unlock()
+		rn.plantSentinel()
 	}
 	if err := rn.feed(raftlib.Ready{CommittedEntries: ents}); err != nil {
 		return err
 	}
+	rn.waitApplied(idx, what)
+	return nil
+}
+
+// plantSentinel makes the completion of reset() observable: reset() clears prevBlock under jobLock as its first effect.
+// (A sentinel that reset() did not clear stays where it is: the read-back then shows a previous work that the
+// specification does not have.)
+func (rn *raNode) plantSentinel() {
+	rn.bf.jobLock.Lock()
+	if rn.bf.prevBlock == nil {
+		rn.bf.prevBlock = raSentinel
+	}
+	rn.bf.jobLock.Unlock()
+}
+
+// waitApplied waits until the block factory's worker is through with entry idx (the last one a Ready published).
+func (rn *raNode) waitApplied(idx uint64, what string) {
 	switch what {
 	case "marker":
-		ok := rn.waitWorker(func() bool {
+		rn.waitWorker(func() bool {
 			rn.bf.jobLock.Lock()
 			defer rn.bf.jobLock.Unlock()
 			rn.bf.ready.RLock()
 			defer rn.bf.ready.RUnlock()
 			return rn.bf.prevBlock == nil && rn.bf.ready.ce != nil && rn.bf.ready.ce.index == idx
 		})
-		// (a sentinel that reset() did not clear stays where it is: the read-back then shows a previous work that the
-		// specification does not have)
-		_ = ok
-		_ = sentinel
 	case "connect", "connect-own", "replay":
 		rn.waitWorker(func() bool { return rn.rs.commitProgress.GetConnect().index == idx })
 	}
 	rn.n.Barrier()
-	return nil
 }
 
 // ---------------------------------------------------------------- reading the real node back
@@ -875,29 +880,61 @@ func raRunBehaviour(b *raBehaviour, in *raInput, res *raRes, prog *raProgress, s
 		st := &b.Steps[i]
 		a := &st.Act
 		rep := raReplay{Behaviour: b.ID, Step: i, Acts: raActs(b, i), Blocks: final.Blks, Spec: &st.State}
-		// A run of follower appends at consecutive indices, optionally closed by a commit advance, is what ONE Ready of a
-		// follower looks like (Entries + HardState); every second such run is handed over as one Ready.
-		if a.Name == "FollowerAppend" && rng.Intn(2) == 0 {
-			j := i
-			for j+1 < len(b.Steps) && b.Steps[j+1].Act.Name == "FollowerAppend" && b.Steps[j+1].Act.I == b.Steps[j].Act.I+1 {
+		// What ONE Ready of etcd looks like: new entries (a run of follower appends at consecutive indices), a hard state
+		// with a higher commit index, and the entries that became committed (a run of Apply steps).  Every second such
+		// run of steps is handed to the loop as one Ready; the node is compared with the state after the last of them.
+		if (a.Name == "FollowerAppend" || a.Name == "AdvanceCommit" || a.Name == "Apply") && rng.Intn(2) == 0 {
+			j := i - 1
+			if a.Name == "FollowerAppend" {
+				j = i
+				for j+1 < len(b.Steps) && b.Steps[j+1].Act.Name == "FollowerAppend" && b.Steps[j+1].Act.I == b.Steps[j].Act.I+1 {
+					j++
+				}
+			}
+			if j+1 < len(b.Steps) && b.Steps[j+1].Act.Name == "AdvanceCommit" {
 				j++
 			}
-			withCommit := j+1 < len(b.Steps) && b.Steps[j+1].Act.Name == "AdvanceCommit"
-			if withCommit {
+			firstApply := -1
+			for j+1 < len(b.Steps) && b.Steps[j+1].Act.Name == "Apply" {
 				j++
+				if firstApply < 0 {
+					firstApply = j
+				}
 			}
 			if j > i {
 				var rd raftlib.Ready
+				marker, lastWhat, lastIdx := false, "", uint64(0)
 				for k := i; k <= j; k++ {
 					ak := &b.Steps[k].Act
-					if ak.Name != "FollowerAppend" {
-						continue
+					switch ak.Name {
+					case "FollowerAppend":
+						e, err := rn.entryOf(ak.I, raEnt{Term: ak.Term, Kind: ak.Kind, B: ak.B})
+						if err != nil {
+							panic(err)
+						}
+						rd.Entries = append(rd.Entries, e)
+					case "Apply":
+						var ce *raftpb.Entry
+						for x := range rd.Entries {
+							if rd.Entries[x].Index == ak.I {
+								ce = &rd.Entries[x]
+							}
+						}
+						if ce == nil {
+							es, err := raStorageEntries(rn.rs.raftStorage, ak.I, ak.I+1)
+							if err != nil || len(es) != 1 {
+								rep.Real = rn.observe()
+								res.Violate(sig("raft-storage", ak), rep, "%s step %d: the raft storage of the node cannot hand out the committed entry %d: %v", b.ID, k, ak.I, err)
+								return
+							}
+							ce = &es[0]
+						}
+						rd.CommittedEntries = append(rd.CommittedEntries, *ce)
+						marker = marker || ak.What == "marker"
+						if ak.What != "dup" {
+							lastWhat, lastIdx = ak.What, ak.I
+						}
 					}
-					e, err := rn.entryOf(ak.I, raEnt{Term: ak.Term, Kind: ak.Kind, B: ak.B})
-					if err != nil {
-						panic(err)
-					}
-					rd.Entries = append(rd.Entries, e)
 				}
 				last := &b.Steps[j].State
 				if last.Term != src.Term || last.Commit != src.Commit {
@@ -906,15 +943,19 @@ func raRunBehaviour(b *raBehaviour, in *raInput, res *raRes, prog *raProgress, s
 				rep = raReplay{Behaviour: b.ID, Step: j, Acts: raActs(b, j), Blocks: final.Blks, Spec: last}
 				prog.set(rep)
 				res.Count(fmt.Sprintf("%s|%d-%d", b.ID, i, j))
+				if marker {
+					rn.plantSentinel()
+				}
 				if err := rn.feed(rd); err != nil {
 					rep.Real = rn.observe()
-					res.Violate(sig("step-fails", a), rep, "%s steps %d..%d (one Ready with %d entries): %v", b.ID, i, j, len(rd.Entries), err)
+					res.Violate(sig("step-fails", a), rep, "%s steps %d..%d (one Ready: %d entries, %d committed entries): %v", b.ID, i, j, len(rd.Entries), len(rd.CommittedEntries), err)
 					return
 				}
+				rn.waitApplied(lastIdx, lastWhat)
 				o := rn.observe()
 				if kind, text := o.diff(last); kind != "" {
 					rep.Real = o
-					res.Violate(sig(kind, a), rep, "%s steps %d..%d, after one Ready with %d entries (commit %d): %s", b.ID, i, j, len(rd.Entries), last.Commit, text)
+					res.Violate(sig(kind, a), rep, "%s steps %d..%d, after one Ready with %d entries, commit %d, %d committed entries: %s", b.ID, i, j, len(rd.Entries), last.Commit, len(rd.CommittedEntries), text)
 					return
 				}
 				src = last
